@@ -36,21 +36,16 @@ Definition spec_valid (o : op) : bool :=
      end.
 
 (* ---- the reference registry ---- *)
-Definition skey := (N * N * labels)%type.                (* group, name, labels *)
-Definition sentry := (skey * (N * sval))%type.           (* ... -> kind code, value *)
-Definition sreg := list sentry.
+Notation skey := (N * N * list (N * N))%type (only parsing).                (* group, name, labels *)
+Notation sentry := (N * N * list (N * N) * (N * (Z * list N)))%type (only parsing).           (* ... -> kind code, value *)
+Notation sreg := (list (N * N * list (N * N) * (N * (Z * list N)))) (only parsing).
 
 Definition labels_eqb (a b : labels) : bool := list_eqb (pair_eqb N.eqb N.eqb) a b.
 Definition skey_eqb (a b : skey) : bool :=
   N.eqb (fst (fst a)) (fst (fst b)) && N.eqb (snd (fst a)) (snd (fst b)) && labels_eqb (snd a) (snd b).
 
-Fixpoint sget (k : skey) (r : sreg) : option (N * sval) :=
-  match r with
-  | [] => None
-  | (k', e) :: r' => if skey_eqb k k' then Some e else sget k r'
-  end.
-Definition sset (k : skey) (e : N * sval) (r : sreg) : sreg :=
-  (k, e) :: filter (fun x => negb (skey_eqb k (fst x))) r.
+Definition sget : skey -> sreg -> option (N * sval) := aget skey_eqb.
+Definition sset : skey -> N * sval -> sreg -> sreg := aset skey_eqb.
 Definition sdrop_group (g : N) (r : sreg) : sreg :=
   filter (fun x => negb (N.eqb (fst (fst (fst x))) g)) r.
 
@@ -202,37 +197,18 @@ Definition collides (hook : N) (r : sreg) (o : op) : bool :=
   | _ => false
   end.
 
-(* the reference run, noting collisions *)
-Definition apply_t (hook : N) (rt : sreg * bool) (o : op) : sreg * bool :=
-  (spec_apply hook (fst rt) o, snd rt || collides hook (fst rt) o).
-Definition group_t (hook : N) (ops : list op) (rt : sreg * bool) (g : N) : sreg * bool :=
-  fold_left (apply_t hook) (in_group g ops) (sdrop_group g (fst rt), snd rt).
+(* Go iterates over the batch's groups in an arbitrary order, so "holds" means: before
+   the batch (a group processed later still has its old series) or after it (a group
+   processed earlier already has its new ones) *)
+Definition batch_collides (hook : N) (r : sreg) (ops : list op) : bool :=
+  existsb (fun o => collides hook r o || collides hook (fst (spec_batch r hook ops)) o) ops.
 
 Fixpoint T_F5a_from (r : sreg) (bs : list batch) : bool :=
   match bs with
   | [] => false
   | (hook, ops) :: bs' =>
       if forallb spec_valid ops
-      then snd (fold_left (group_t hook ops) (mentioned ops []) (r, false))
-           || T_F5a_from (fst (spec_batch r hook ops)) bs'
+      then batch_collides hook r ops || T_F5a_from (fst (spec_batch r hook ops)) bs'
       else T_F5a_from r bs'
   end.
 Definition T_F5a (bs : list batch) : bool := T_F5a_from [] bs.
-
-(* F5b: an accepted batch adds a non-integer amount to a grouped counter *)
-Definition frac_add (o : op) : bool :=
-  match eff o with
-  | (AAdd, Some x) => negb (N.eqb (o_group o) 0) && negb (Z.eqb (Z.rem x 8) 0)
-  | _ => false
-  end.
-Definition T_F5b (bs : list batch) : bool :=
-  existsb (fun b => forallb spec_valid (snd b) && existsb frac_add (snd b)) bs.
-
-(* F5c: an accepted batch uses the `add` shortcut (non-zero) on a grouped counter *)
-Definition shortcut_add (o : op) : bool :=
-  match o_add o with
-  | Some x => negb (N.eqb (o_group o) 0) && negb (Z.eqb x 0)
-  | None => false
-  end.
-Definition T_F5c (bs : list batch) : bool :=
-  existsb (fun b => forallb spec_valid (snd b) && existsb shortcut_add (snd b)) bs.
